@@ -135,6 +135,7 @@ func genC17(r *rand.Rand, t *Trace, thorough bool) {
 		dir := filepath.Join(work, "stores", fmt.Sprintf("l%d_%d", os.Getpid(), storeCaseCounter))
 		os.RemoveAll(dir)
 		handles := map[int]*comet.PersistentHybridIndex{}
+		builders := map[int]comet.HybridSearch{} // one search builder per handle, created right after the open
 		nextH := 1
 		c := NewCase(1700)
 		var ops []func(c *Case)
@@ -150,6 +151,7 @@ func genC17(r *rand.Rand, t *Trace, thorough bool) {
 				code := lockCode(err)
 				if err == nil {
 					handles[h] = st
+					builders[h] = st.NewSearch().WithVector([]float32{1, 2}).WithK(3)
 				} else if after := dirNames(dir); after != before {
 					// "fails without modifying the directory"
 					ops = append(ops, func(c *Case) { c.N(9).N(h) })
@@ -177,10 +179,17 @@ func genC17(r *rand.Rand, t *Trace, thorough bool) {
 					t.Stat("lock.second_close")
 				}
 				// after Close EVERY further operation on the old handle fails cleanly: each kind is tried
-				for kind := 0; kind < 6; kind++ {
+				for kind := 0; kind < 7; kind++ {
 					var uerr error
 					pan := catchPanic(func() {
 						switch kind {
+						case 6:
+							// a search builder obtained while the handle was open, executed now
+							if b, ok := builders[h]; ok {
+								_, uerr = b.Execute()
+							} else {
+								uerr = fmt.Errorf("storage is closed")
+							}
 						case 0:
 							_, uerr = st.Add([]float32{1, 2}, "", nil)
 						case 1:
@@ -302,6 +311,7 @@ func genC17(r *rand.Rand, t *Trace, thorough bool) {
 				for i := 0; i < k; i++ {
 					if codes[i] == 0 {
 						handles[hs[i]] = sts[i]
+						builders[hs[i]] = sts[i].NewSearch().WithVector([]float32{1, 2}).WithK(3)
 					}
 				}
 				la := lockExists(dir)
